@@ -5,6 +5,7 @@ package zzverif
 // covers, and the relational laws on every pair.
 
 import (
+	"regexp"
 	"fmt"
 	"github.com/verily-src/fhirpath-go/fhirpath/system"
 	"strconv"
@@ -316,10 +317,7 @@ func c05GenVal(s Src) Val {
 		kind, text := c09GenStart(s)
 		if kind == "DateTime" && strings.Contains(text, ":") && s.Prob(60) {
 			// any offset of the FHIR range instead of the four of the C09 generator
-			for _, o := range []string{"+05:30", "-11:00", "Z"} {
-				text = strings.TrimSuffix(text, o)
-			}
-			text += genOffset(s)
+			text = regexp.MustCompile(`(Z|[+-]\d\d:\d\d)$`).ReplaceAllString(text, "") + genOffset(s)
 		}
 		return Val{K: kind, S: text}
 	case 5:
